@@ -68,6 +68,47 @@ def gen_example(rng, w):
           'd': rng.randrange(min(w['D'], w['Dpp']))}
 
 
+def fval(v):
+  """score token -> float: 'ninf' / 'pinf' are -inf / +inf logits"""
+  return -np.inf if v == 'ninf' else np.inf if v == 'pinf' else v
+
+
+def has_nonfinite(r):
+  return any(isinstance(v, str) for v in r['p']) or any(isinstance(v, str) for row in r['ps'] for v in row)
+
+
+def make_hard(rng, e):
+  """A REAL example whose target class has a -inf logit (a class the model rules out; its cross-entropy is
+  +inf as a single example) or, less often, a +inf logit (cross-entropy inf - inf = NaN)."""
+  tok = 'ninf' if rng.random() < 0.8 else 'pinf'
+  which = rng.randrange(3)
+  if which in (0, 2):
+    e['p'] = list(e['p'])
+    e['p'][e['y']] = tok
+  if which in (1, 2):
+    i = rng.randrange(len(e['ys']))
+    e['ps'] = [list(r) for r in e['ps']]
+    e['ps'][i][e['ys'][i]] = tok
+  return e
+
+
+def same(v, ref, tol):
+  """inf-aware equality: NaN only where the reference is NaN, +-inf exactly, finite within tol"""
+  if np.isnan(ref):
+    return bool(np.isnan(v))
+  if np.isinf(ref):
+    return bool(v == ref)
+  return bool(np.isfinite(v) and abs(v - ref) <= tol)
+
+
+def vsame(got, ref, tol):
+  got, ref = np.asarray(got, dtype=np.float64), np.asarray(ref, dtype=np.float64)
+  tol = np.broadcast_to(np.asarray(tol, dtype=np.float64), ref.shape)
+  with np.errstate(invalid='ignore'):
+    fin = np.isfinite(ref) & np.isfinite(got) & (np.abs(got - ref) <= np.where(np.isfinite(tol), tol, 0.0))
+  return np.where(np.isnan(ref), np.isnan(got), np.where(np.isinf(ref), got == ref, fin))
+
+
 BIG = [float(np.float32(3e38)), float(np.float32(1e38)), float(2.0 ** 127), float(np.float32(3.4e38)), float(2.0 ** 100)]
 SENTINEL = Fraction(12345)      # stands for a non-finite statistic of a MASKED row in the protocol
 
@@ -108,6 +149,11 @@ def _apply_for_eval(params, batch):
   return {'p': batch['p'], 'ps': batch['ps']}
 
 
+def _apply_with_params(params, batch):
+  """a "model" with parameters: a per-class bias added to the scores"""
+  return {'p': batch['p'] + params['w'], 'ps': batch['ps'] + params['w']}
+
+
 def reconfigure(rng, spec, C):
   """Another configuration of the same metric class with the same statistic structure/shape."""
   n = spec[0]
@@ -137,7 +183,7 @@ class C05(core.Property):
              'float32 rounding of loss-valued sums is covered by the tolerance policy, not by the theorems']
   ASSUMPTIONS = ['padded rows hold arbitrary values of the example/prediction types (in-domain), '
                  'mask and rows have equal length']
-  QUICK_BUDGET_S = 150
+  QUICK_BUDGET_S = 180
   THOROUGH_BUDGET_S = 560
 
   def setup(self, ctx):
@@ -216,6 +262,23 @@ class C05(core.Property):
                  for i in range(0, len(idx), size)]
       yield {'kind': 'twin', 'w': w, 'specsA': specs_a, 'specsB': specs_b, 'examples': exs, 'batches': batches,
              'junk_seed': rng.randrange(10 ** 6), 'order': order}
+    # one ModelEvaluator on the pmap backend, reused while the params change
+    pm_specs = [['acc'], ['ce'], ['cm', w['C']], ['stacc', [0], None, False]]
+    for D in (1, 2):
+      exs = [gen_example(rng, w) for _ in range(rng.randrange(4, 10))]
+      idx = list(range(len(exs)))
+      rng.shuffle(idx)
+      ncl = rng.choice([2, 3])
+      per = [idx[i::ncl] for i in range(ncl)]
+      clients = [[{'rows': c[i:i + 4] + [None] * (4 - len(c[i:i + 4])), 'mask': True} for i in range(0, len(c), 4)]
+                 for c in per]
+      ws = []
+      while len(ws) < 9:
+        v = [rng.choice([-6, -3, 0, 3, 6]) for _ in range(w['C'])]
+        if not ws or v != ws[-1]:
+          ws.append(v)
+      yield {'kind': 'pmap', 'w': w, 'devices': D, 'specs': pm_specs, 'examples': exs, 'clients': clients,
+             'ws': ws, 'junk_seed': rng.randrange(10 ** 6)}
     # single batches of several thousand rows (evaluate_batch over more rows than any block size)
     big_specs = [['acc'], ['cm', w['C']], ['ce'], ['pd', ['acc'], w['D']], ['stacc', [0], None, True]]
     big_sizes = [4097, 4500, 9000]
@@ -241,6 +304,11 @@ class C05(core.Property):
   def _eval_case(self, rng, w, specs, sizes):
     n = rng.choice([0, 1, 2, 3, 5, 8, 12, rng.randrange(0, 13)])
     examples = [gen_example(rng, w) for _ in range(n)]
+    if n and rng.random() < 0.3:
+      # one (sometimes two) REAL rows whose target class has a -inf / +inf logit: the single-example loss is
+      # +inf (NaN), and so must be the batched / merged statistic
+      for i in rng.sample(range(n), min(n, rng.choice([1, 1, 1, 2]))):
+        make_hard(rng, examples[i])
     mode = rng.randrange(3)
     if mode == 0 and n > 0:
       # the real ClientDataset.padded_batch does the partition; batch order is then permuted
@@ -294,6 +362,13 @@ class C05(core.Property):
   def shrink(self, case):
     if case['kind'] in ('stat', 'big'):
       return
+    if case['kind'] == 'pmap':
+      if len(case['clients']) > 1:
+        yield {**case, 'clients': case['clients'][:1]}
+      if len(case['specs']) > 1:
+        for i in range(len(case['specs'])):
+          yield {**case, 'specs': [case['specs'][i]]}
+      return
     if case['kind'] == 'twin':
       for i in range(len(case['specsA'])):
         if len(case['specsA']) > 1:
@@ -346,8 +421,9 @@ class C05(core.Property):
     n = len(rows)
     return {'y': np.array([r['y'] for r in rows], dtype=np.int32).reshape(n),
             'ys': np.array([r['ys'] for r in rows], dtype=np.int32).reshape(n, L),
-            'p': np.array([r['p'] for r in rows], dtype=np.float32).reshape(n, C),
-            'ps': np.array([r['ps'] for r in rows], dtype=np.float32).reshape(n, L, C),
+            'p': np.array([[fval(v) for v in r['p']] for r in rows], dtype=np.float32).reshape(n, C),
+            'ps': np.array([[[fval(v) for v in row] for row in r['ps']] for r in rows],
+                           dtype=np.float32).reshape(n, L, C),
             'd': np.array([r['d'] for r in rows], dtype=np.int32).reshape(n)}
 
   def _concrete(self, case):
@@ -368,7 +444,7 @@ class C05(core.Property):
             junk = self._arrays([gen_junk(jrng, w)], w)
             for k in junk:
               b[k][i] = junk[k][0]
-        num = lambda v: int(v) if abs(float(v)) < 2 ** 24 else float(v)
+        num = lambda v: ('ninf' if v < 0 else 'pinf') if np.isinf(v) else int(v) if abs(float(v)) < 2 ** 24 else float(v)
         rows = [{'y': int(b['y'][i]), 'ys': b['ys'][i].tolist(), 'p': [num(v) for v in b['p'][i]],
                  'ps': [[num(v) for v in r] for r in b['ps'][i]], 'd': int(b['d'][i])} for i in range(len(mask))]
         out.append((rows, mask, b))
@@ -423,6 +499,8 @@ class C05(core.Property):
       return self._evaluate_twin(case, ctx)
     if case['kind'] == 'big':
       return self._evaluate_big(case, ctx)
+    if case['kind'] == 'pmap':
+      return self._evaluate_pmap(case, ctx)
     return self._evaluate_eval(case, ctx)
 
   def _evaluate_twin(self, case, ctx):
@@ -446,6 +524,95 @@ class C05(core.Property):
     return Outcome(oracle_fail='; '.join(problems[:2]) or None, corr_fail='; '.join(corr[:2]) or None,
                    nontrivial=True, tags=('twin-models', 'order=' + ''.join(case['order'])), key='C05/twin-models',
                    detail={'specsA': case['specsA'], 'specsB': case['specsB']})
+
+  def _evaluate_pmap(self, case, ctx):
+    """ONE ModelEvaluator on the pmap backend, called repeatedly with params that change between the calls
+    (the same dict mutated in place; fresh short-lived dicts in a loop): every result must be the merge of the
+    single-example statistics under the CURRENT params."""
+    jax, jnp, M, models, fec = self.jax, self.jnp, self.M, self.models, self.fec
+    w, D, specs, ws = case['w'], case['devices'], case['specs'], case['ws']
+    L = w['L']
+    devices = jax.local_devices()[:D]
+    if len(devices) < D:
+      return Outcome(nontrivial=False, tags=('pmap-skipped',))
+    key = 'pmap' + json.dumps(specs)
+    if key not in self._bundles:
+      metrics = {str(i): ml.build_metric(M, sp, self._tkey(sp), self._pkey(sp), 'd') for i, sp in enumerate(specs)}
+      model = models.Model(init=None, apply_for_train=None, apply_for_eval=_apply_with_params, train_loss=None,
+                           eval_metrics=metrics)
+
+      def per_example(batch, wvec):
+        pred = _apply_with_params({'w': wvec}, batch)
+        return {k: jax.vmap(m.evaluate_example)(batch, pred) for k, m in metrics.items()}
+
+      self._bundles[key] = (metrics, model, jax.jit(per_example))
+    metrics, model, per_example = self._bundles[key]
+    clients = []
+    for ci, cl in enumerate(case['clients']):
+      conc = self._concrete({'w': w, 'examples': case['examples'], 'batches': cl, 'junk_seed': case['junk_seed'] + ci})
+      clients.append((b'c%d' % ci, conc))
+
+    def expected(wvec):
+      out = {}
+      for cid, conc in clients:
+        leaves = {k: [] for k in metrics}
+        for rows, mask, b in conc:
+          feats = {kk: jnp.asarray(v) for kk, v in b.items() if kk != self.cds.EXAMPLE_MASK_KEY}
+          st = {k: ml.stat_arrays(v) for k, v in per_example(feats, jnp.asarray(wvec, dtype=jnp.float32)).items()}
+          for i in range(len(rows)):
+            if mask is None or mask[i]:
+              for k, sp in enumerate(specs):
+                shape = ml.stat_shape(sp, L)
+                leaves[str(k)].append(tuple(ml.lead_broadcast(a[i], shape) for a in st[str(k)][1:]))
+        out[cid] = {k: self._ref_merge('sum' if ml.is_sum(specs[int(k)]) else 'mean', leaves[k],
+                                       ml.stat_shape(specs[int(k)], L)) for k in metrics}
+      return out
+
+    problems = []
+
+    def check(how, wvec, res):
+      exp = expected(wvec)
+      for cid, conc in clients:
+        for k, sp in enumerate(specs):
+          k = str(k)
+          ra, rw, rres, absum = exp[cid][k]
+          shape = ml.stat_shape(sp, L)
+          loss = ml.is_loss(sp)
+          rscale = absum / np.where(rw != 0, rw, 1) if rw is not None else absum
+          tol = (1e-5 * rscale + 1e-4 * np.abs(rres) + 1e-6) if loss else 1e-6 * np.maximum(1.0, np.abs(rres))
+          try:
+            got = ml.lead_broadcast(np.asarray(res[cid][k], dtype=np.float64), shape)
+          except (KeyError, ValueError) as e:
+            problems.append(f'{how}: client {cid!r} {ml.name_of(sp)}: {exc_enum(e)}')
+            continue
+          if not np.all(vsame(got, rres, tol)):
+            problems.append(f'{how}, params w={list(wvec)}: client {cid.decode()} {ml.name_of(sp)} = '
+                            f'{got.reshape(-1)[:4].tolist()}, merging its single-example statistics under the '
+                            f'current params gives {rres.reshape(-1)[:4].tolist()}')
+
+    batches_of = [(cid, [b for _, _, b in conc]) for cid, conc in clients]
+    try:
+      with fec.for_each_client_backend(fec.ForEachClientPmapBackend(devices)):
+        evaluator = models.ModelEvaluator(model)
+        # (a) the same params dict, updated in place between the calls
+        params = {'w': jnp.asarray(ws[0], dtype=jnp.float32)}
+        for r in range(3):
+          params['w'] = jnp.asarray(ws[r], dtype=jnp.float32)
+          check(f'pmap backend, {D} device(s), call #{r + 1} with the same params dict updated in place', ws[r],
+                dict(evaluator.evaluate_global_params(params, batches_of)))
+        del params
+        # (b) a fresh, short-lived params dict per round (as a training loop produces them)
+        for r in range(3, len(ws)):
+          params = {'w': jnp.asarray(ws[r], dtype=jnp.float32)}
+          check(f'pmap backend, {D} device(s), round {r - 2} of a loop with a fresh params dict per round', ws[r],
+                dict(evaluator.evaluate_global_params(params, batches_of)))
+          del params
+    except Exception as e:   # pylint: disable=broad-except
+      problems.append(f'ModelEvaluator on the pmap backend raised {exc_enum(e)}: {str(e)[:120]}')
+    ctx.count('pmap_evaluator_calls', len(ws))
+    return Outcome(oracle_fail='; '.join(problems[:3]) or None, nontrivial=True,
+                   tags=('pmap-evaluator', f'devices={D}'), key='C05/pmap-evaluator',
+                   detail={'calls': len(ws), 'clients': len(clients)})
 
   def _evaluate_big(self, case, ctx):
     """One batch of several thousand rows for a cheap metric set, against a vectorised numpy merge of the
@@ -591,7 +758,7 @@ class C05(core.Property):
       one = {kk: jnp.asarray(v[i]) for kk, v in conc[bi][2].items() if kk != cds.EXAMPLE_MASK_KEY}
       eager = ml.stat_arrays(metrics[k].evaluate_example(one, {'p': one['p'], 'ps': one['ps']}))
       for a, b in zip(eager[1:], row_stats[bi][k][1:]):
-        if not np.allclose(a, b[i], rtol=1e-6, atol=1e-6):
+        if not np.allclose(a, b[i], rtol=1e-6, atol=1e-6, equal_nan=True):
           problems.append(f'{ml.name_of(specs[int(k)])}: vmapped evaluate_example differs from the eager call')
       ctx.count('eager_spot_checks')
 
@@ -667,8 +834,9 @@ class C05(core.Property):
         data = []
         for i in range(len(rows)):
           masked = mask is not None and not mask[i]
-          # a real row must have a finite statistic; for a masked row a non-finite one is sent as SENTINEL
-          # (the model, like the property, must ignore the row whatever it holds: theorem C05_mask)
+          # the model is over rationals: a non-finite statistic is sent as SENTINEL.  For a masked row the model,
+          # like the property, must ignore it whatever it holds (theorem C05_mask); for a real row the entries it
+          # makes non-finite are compared by the oracle only (inf-aware equality with the single-example merge)
           frac = lambda x: self._frac(x, masked, ml.name_of(specs[int(k)]), problems)
           a = ml.lead_broadcast(st[1][i], shape).reshape(-1)
           if kind == 'mean':
@@ -681,6 +849,8 @@ class C05(core.Property):
 
     lines, index = [], []
     logps = None
+    hard = any(has_nonfinite(rows[i]) for bi, (rows, mask, _) in enumerate(conc) for i in range(len(rows))
+               if mask is None or mask[i])
     for k, spec in enumerate(specs):
       kind = 'sum' if ml.is_sum(spec) else 'mean'
       shape = ml.stat_shape(spec, L)
@@ -692,7 +862,7 @@ class C05(core.Property):
         for j, (data, mask) in enumerate(rd):
           lines.append(line('c05.evalbatch_s', kind, size, data, mask))
           index.append(('batch', str(k), j))
-      if end_to_end(spec):
+      if end_to_end(spec) and not hard:
         if logps is None:
           logps = [self._logp(b) for _, _, b in conc]
         mb = [[self._model_rows(spec, rows, lp), mask] for (rows, mask, _), lp in zip(conc, logps)]
@@ -729,11 +899,11 @@ class C05(core.Property):
         ctx.count('monoid_monitor_metrics')
 
       def ok(v, ref, scale):
-        if not np.isfinite(v):
-          return False
+        if not np.isfinite(ref):
+          return same(v, ref, 0.0)                  # +-inf exactly; NaN only where the reference is NaN
         if loss:
-          return abs(v - ref) <= 1e-5 * scale + 1e-4 * abs(ref) + 1e-6
-        return abs(v - ref) <= 1e-6 * max(1.0, abs(ref))      # counts are exact; results are one f32 division
+          return same(v, ref, 1e-5 * scale + 1e-4 * abs(ref) + 1e-6)
+        return same(v, ref, 1e-6 * max(1.0, abs(ref)))         # counts are exact; results are one f32 division
 
       rscale = absum / np.where(rw != 0, rw, 1) if kind == 'mean' else absum
       # oracle: every way of evaluating gives the merge of the single-example statistics
@@ -777,7 +947,10 @@ class C05(core.Property):
         if len(mres) != len(got_b):
           corr.append(f'{name}: {what} size {len(mres)} vs {len(got_b)}')
         else:
+          rflat = rres.reshape(-1)
           for i, (mv, g) in enumerate(zip(mres, got_b)):
+            if not np.isfinite(rflat[i]):
+              continue                                # non-finite entry: oracle only (see row_data)
             if not ok(g, float(mv), scale[i]):
               corr.append(f'{name}: evaluate_model result[{i}] {g} vs {what} {mv}')
               break
@@ -837,7 +1010,7 @@ class C05(core.Property):
       tol_a = 1e-5 * absum + 1e-4 * np.abs(ra) + 1e-6 if loss else 0.0
       rscale = absum / np.where(rw != 0, rw, 1) if kind == 'mean' else absum
       tol_r = (1e-5 * rscale + 1e-4 * np.abs(rres) + 1e-6) if loss else 1e-6 * np.maximum(1.0, np.abs(rres))
-      bad = (not np.all(np.isfinite(res))) or np.any(np.abs(acc - ra) > tol_a) or np.any(np.abs(res - rres) > tol_r) \
+      bad = (not np.all(vsame(acc, ra, tol_a))) or (not np.all(vsame(res, rres, tol_r))) \
           or (kind == 'mean' and not np.array_equal(wt, rw))
       if bad:
         got = f'accum {acc.reshape(-1).tolist()[:4]}' + (f' weight {wt.reshape(-1).tolist()[:4]}' if kind == 'mean' else '') + \
@@ -894,9 +1067,6 @@ class C05(core.Property):
     x = float(x)
     if np.isfinite(x):
       return Fraction(x)
-    if not masked:
-      problems.append(f'{name}: non-finite single-example statistic {x} on a real (moderate) example')
-      return Fraction(0)
     return SENTINEL
 
   @staticmethod
@@ -912,7 +1082,10 @@ class C05(core.Property):
       if len(ans[1]) != len(ia):
         return f'size {len(ans[1])} vs {len(ia)}'
       for i, ((ma, mw), a, wgt) in enumerate(zip(ans[1], ia, iw)):
-        tol = (1e-5 * flat_scale[i] + 1e-4 * abs(float(ma)) + 1e-6) if loss else 0.0
+        if not np.isfinite(a):
+          continue                                    # non-finite entry: judged by the oracle on the merged statistic
+        fs = flat_scale[i] if np.isfinite(flat_scale[i]) else 8.0 * (abs(float(ma)) + 1.0)   # another row is non-finite
+        tol = (1e-5 * fs + 1e-4 * abs(float(ma)) + 1e-6) if loss else 0.0
         if wgt != mw or abs(a - float(ma)) > tol:
           return f'entry {i}: model ({ma},{mw}) vs impl ({a},{wgt})'
       return None
@@ -955,7 +1128,7 @@ class C05(core.Property):
     except Exception as e:   # pylint: disable=broad-except
       problems.append(f'{ml.name_of(spec)} (num_domains={spec[2]}, sequence length {L}): evaluate_batch with a mask '
                       f'raised {exc_enum(e)}: {str(e)[:90]}')
-      shape_failure = exc_enum(e) in ('ValueError', 'TypeError')
+      shape_failure = True        # whatever is raised
     try:
       z = metric.zero()
       if n_real:
@@ -966,7 +1139,7 @@ class C05(core.Property):
           shape_failure = shape_failure or merged[1].shape != shape
     except Exception as e:   # pylint: disable=broad-except
       problems.append(f'{ml.name_of(spec)}: zero().merge(stat) raised {exc_enum(e)}')
-      shape_failure = shape_failure or exc_enum(e) in ('ValueError', 'TypeError')
+      shape_failure = True
     # the model has no such restriction (flattened statistics)
     data = [[[self._frac(x, not m, ml.name_of(spec), problems), self._frac(y, not m, ml.name_of(spec), problems)]
              for x, y in zip(ml.lead_broadcast(st[1], shape).reshape(-1), ml.lead_broadcast(st[2], shape).reshape(-1))]
@@ -1011,7 +1184,10 @@ class C05(core.Property):
         M.MeanStat(jnp.array([float(a) for a, _ in stats[:n]], dtype=jnp.float32),
                    jnp.array([float(wt) for _, wt in stats[:n]], dtype=jnp.float32))
     red = red.reduce()
-    for what, got, a in (('new', new0, ans[0]), ('merge', m01, ans[1]), ('merge', m12, ans[2]), ('reduce', red, ans[3])):
+    # outside the documented domain only new() has documented behaviour ("sanitizes values outside the domain into
+    # the identity"); merge / reduce of raw out-of-domain statistics are not covered by the property
+    compared = (('new', new0, ans[0]), ('merge', m01, ans[1]), ('merge', m12, ans[2]), ('reduce', red, ans[3]))
+    for what, got, a in (compared if valid else compared[:1]):
       g = tup(got) + (float(got.result()),)
       want = tuple(float(x) for x in a)
       if g[:2] != want[:2] or not (np.isfinite(g[2]) and abs(g[2] - want[2]) <= 1e-6 * max(1, abs(want[2]))):
@@ -1035,7 +1211,7 @@ class C05(core.Property):
       want = float(fold.accum) / float(fold.weight) if float(fold.weight) != 0 else 0.0
       if not np.isfinite(r) or abs(r - want) > 1e-6 * max(1, abs(want)):
         problems.append(f'MeanStat.result {r} != {want}')
-    for what, got in (('new', new0), ('merge', m01), ('reduce', red)):
+    for what, got in ((('new', new0), ('merge', m01), ('reduce', red)) if valid else (('new', new0),)):
       a, wt = tup(got)
       if not ((a == 0 and wt == 0) or wt > 0):
         problems.append(f'MeanStat.{what} left the documented domain: {(a, wt)}')
